@@ -1,4 +1,28 @@
-(* C02 — theorems in progress; this file is replaced as they are proved *)
-From AB Require Import Check.WorldCheck.
-Theorem c02_placeholder : True. Proof. exact I. Qed.
-Print Assumptions c02_placeholder.
+(* C02 — with a second factor enabled, password knowledge alone never yields a session. *)
+From AB Require Import World.Handlers Proofs.MonadInv Proofs.Veto Proofs.NoLogin Proofs.Hijack.
+
+(* The before-hijack question is never answered "not handled" for a context user with a TOTP
+   secret (totp2fa set up) or an SMS number (sms2fa set up): in any module configuration and
+   either set-up order of the two 2FA modules. *)
+Theorem c02_hijack_refuses : forall E rm h r h',
+  ctx_2fa E h -> fire E EvBeforeHijack rm h = (r, h') -> r <> Ok false.
+Proof. exact fire_hijack_refuses. Qed.
+Print Assumptions c02_hijack_refuses.
+
+(* /login for such an account: every session event the request can append is uid-neutral —
+   the correct password only parks the login (pending marker), it never logs in — whatever
+   other modules (lock, confirm, remember, expire) are loaded in whatever order, and whatever
+   storage or SMS-sender faults occur *)
+Theorem c02_password_login_parks : forall E h u,
+  ulookup (aget (pid_field E) (values E)) (s_users (h_st h)) = Some u ->
+  (has_totp E u \/ has_sms E u) ->
+  neutral_from (login_post E) h.
+Proof. exact login_post_2fa_parks_lemma. Qed.
+Print Assumptions c02_password_login_parks.
+
+(* the BeforeAuth hooks (lock, confirm) never remove a second factor from the context user *)
+Theorem c02_before_auth_keeps_factor : forall E rm hs hd h r h',
+  (forall g, In g hs -> g = HLockBefore \/ g = HConfirmPrevent) ->
+  ctx_2fa E h -> call E hs rm hd h = (r, h') -> ctx_2fa E h'.
+Proof. exact before_auth_keeps_2fa. Qed.
+Print Assumptions c02_before_auth_keeps_factor.
